@@ -197,7 +197,7 @@ def main(tier, write_baseline=False):
             continue
         seen.add(o["name"])
         run.violation(o["name"], "obligation refuted by %s on path %s" % (o["backend"], " ".join(o["trace"])),
-                      failing_input=common.model_replay("contracts.C08", o) or common.model_replay("contracts.C01", o), solver_output={"model": o["model"], "smt2": (o["smt2"] or "")[:4000]})
+                      failing_input=(common.set_default_doc_replay() if ":set_default_doc/" in o["name"] else None) or common.model_replay("contracts.C08", o) or common.model_replay("contracts.C01", o), solver_output={"model": o["model"], "smt2": (o["smt2"] or "")[:4000]})
     for name, det in rule_refuted:
         run.violation(name, det + " -- " + rule_inputs[name]["what"], failing_input=rule_inputs.get(name), solver_output={"rule": det})
     M.report(run, "C08/bounded", fails)
